@@ -202,11 +202,14 @@ theorem chains_pred_tok_bounded (p : Params) : PredTokBounded (Chains.pred p) wh
     transcription `HuffCalc.calcBitLengths` itself is built from `partial def`s, opaque to the kernel.) -/
 theorem chains_pred_len_bounded (p : Params) : PredLenBounded (Chains.pred p) where
   bitlen freq maxBits _ x hx := by
-    simp only [Chains.pred, List.mem_map] at hx
-    obtain ⟨y, _, rfl⟩ := hx
-    have : y % 256 < 256 := Nat.mod_lt _ (by decide)
-    unfold PRED_BOUND
-    omega
+    simp only [Chains.pred] at hx
+    split at hx
+    · simp only [List.mem_map] at hx
+      obtain ⟨y, _, rfl⟩ := hx
+      have : y % 256 < 256 := Nat.mod_lt _ (by decide)
+      unfold PRED_BOUND
+      omega
+    · simp at hx
 
 /-- `PredBounded` for the executable predictor, every parameter vector -/
 theorem chains_pred_bounded (p : Params) : PredBounded (Chains.pred p) where
